@@ -33,6 +33,41 @@ def _copy_attr_spec(attr_spec: Attr) -> Attr:
 
 
 @dataclass_transform()
+def _check_object_new_arguments(cls: type):
+    """
+    `object.__new__` accepts (and ignores) constructor arguments only for
+    classes that leave `__new__` alone and bring an `__init__` to consume them.
+    The pass-through `__new__` that lazily bootstrapped classes keep swallows
+    the arguments before `object.__new__` sees them, so it has to apply the
+    same rule itself.
+    """
+    for klass in cls.__mro__[:-1]:
+        new = klass.__dict__.get("__new__")
+        new = getattr(new, "__func__", new)
+        if new is not None and not (
+            getattr(new, "__spec_classes_new_standin__", False)
+            or getattr(new, "__spec_classes_new_wrapper__", False)
+        ):
+            raise TypeError(
+                "object.__new__() takes exactly one argument (the type to instantiate)"
+            )
+    if cls.__init__ is object.__init__:
+        raise TypeError(f"{cls.__name__}() takes no arguments")
+
+
+def _signature_without_new(spec_cls: type) -> inspect.Signature:
+    """
+    The signature that `inspect.signature(spec_cls)` reports for a class that
+    does not define `__new__`: the lazy-bootstrap `__new__` wrapper (and the
+    pass-through it may leave behind) advertise it in place of their own.
+    """
+    if spec_cls.__init__ is object.__init__:
+        return inspect.Signature(
+            [inspect.Parameter("cls", inspect.Parameter.POSITIONAL_ONLY)]
+        )
+    return inspect.signature(spec_cls.__init__)
+
+
 class spec_class:
     """
     A class decorator that converts an ordinary class into a spec-class.
@@ -251,9 +286,16 @@ class spec_class:
                                 # class's `__new__` behind this one)
                                 next_new = super(spec_cls, cls).__new__
                                 if next_new is object.__new__:
+                                    if args or kwargs:
+                                        _check_object_new_arguments(cls)
                                     return object.__new__(cls)
                                 return next_new(cls, *args, **kwargs)
 
+                            # This pass-through stands in for "no `__new__` at
+                            # all": it is not what callers of the class should
+                            # see when they look up its signature.
+                            __new__.__spec_classes_new_standin__ = True
+                            __new__.__signature__ = _signature_without_new(spec_cls)
                             spec_cls.__new__ = __new__
                         else:
                             del spec_cls.__new__
@@ -269,6 +311,7 @@ class spec_class:
                 return next_new(cls, *args, **kwargs)
 
             __new__.__spec_classes_new_wrapper__ = True
+            __new__.__spec_classes_orig_new__ = orig_new
 
             spec_cls.__new__ = __new__
         return spec_cls
@@ -481,6 +524,18 @@ class spec_class:
 
         # Finalize metadata and remove bootstrapper from class.
         self._publish_metadata(spec_cls, metadata, final=True)
+
+        # Until the first instantiation removes it, the lazy-bootstrap `__new__`
+        # wrapper advertises what the class would show without it.
+        wrapper = spec_cls.__dict__.get("__new__")
+        wrapper = getattr(wrapper, "__func__", wrapper)
+        if getattr(wrapper, "__spec_classes_new_wrapper__", False):
+            orig_new = wrapper.__spec_classes_orig_new__
+            wrapper.__signature__ = (
+                inspect.signature(getattr(orig_new, "__func__", orig_new))
+                if orig_new
+                else _signature_without_new(spec_cls)
+            )
 
     @staticmethod
     def _publish_metadata(spec_cls: type, metadata: SpecClassMetadata, final: bool):
